@@ -15,7 +15,8 @@ func init() {
 		Explanation: "Decides, for every URL a client can place in a shim open request: (U) the URL that is dialled is String() of a url.URL value that is a copy of the request's URL in which every authority-bearing field — Scheme, Host, Opaque (String() renders scheme:opaque and ignores Host when it is set) and User — is overwritten, on every path before the dial, with a constant or the configured host; " +
 			"(D) who-may-dial: the shim package has exactly one websocket dial site, its URL argument is NewConnection's parameter, NewConnection has exactly one call site, the package contains no other network client call, and the handshake response is not used to dial again (no redirect following); " +
 			"(M) mounting: every shim endpoint is registered under path.Join(shimPath, <constant>), the shim server is entered only under the cleaned shim prefix, everything else goes to the wrapped handler with the original writer and request. " +
-			"Not decided: DNS / proxy-environment behaviour of the dialer.",
+			"Not decided: DNS / proxy-environment behaviour of the dialer. " +
+			"The prefix compared with r.URL.Path is <cleaned shim path>+\"/\" assigned before the dispatcher is created, so sibling paths that merely share leading characters are passed through.",
 		Assumptions: []string{"net/url.URL.String renders only Scheme, Opaque, User, Host, Path, RawPath, RawQuery, Fragment", "gorilla's Dialer connects to the host of the URL it is given (plus HTTP(S)_PROXY from the environment)"},
 		Run:         runC13,
 	})
